@@ -31,7 +31,12 @@ func (c *Conversation) receiveUnit(m ValidMessage, forgetFragments bool) (plain 
 	case msgGuessFragment:
 		shouldForgetFragment = false
 		hadVersion := c.version != nil
+		hadPeerInstance := c.theirInstanceTag != 0
 		c.fragmentationContext, err = c.receiveFragment(c.fragmentationContext, message)
+		if err != nil && !hadPeerInstance {
+			// a fragment that is rejected does not bind the conversation to the instance it claims to come from
+			c.theirInstanceTag = 0
+		}
 		if fragmentsFinished(c.fragmentationContext) {
 			complete := c.fragmentationContext.frag
 			c.fragmentationContext = forgetFragment()
